@@ -264,6 +264,7 @@ def run_both(prop, cases, impl_argv, model_argv, tag='main', timeout=600, superv
             time.sleep(0.05)
     res = {'impl': [None] * len(cases), 'model': [None] * len(cases)}
     info['supervised'] = []
+    confirm_budget = [2]      # divergences confirmed by a second, longer run (the first two of the whole run)
     for k in range(n):
         for side in ('impl', 'model'):
             lines = open(os.path.join(wd, 'shard%02d.%s.out' % (k, side)), errors='replace').read().split('\n')
@@ -271,7 +272,7 @@ def run_both(prop, cases, impl_argv, model_argv, tag='main', timeout=600, superv
             if side == 'impl' and len(lines) < len(shards[k]) and supervise is not None:
                 # the harness hung or died: re-run this shard case by case under supervision
                 path = os.path.join(wd, 'shard%02d.cases' % k)
-                lines = run_supervised(impl_argv(path), len(shards[k]), supervise)
+                lines = run_supervised(impl_argv(path), len(shards[k]), supervise, confirm_budget)
                 info['supervised'].append(k)
                 info['crashes'] = [c for c in info['crashes'] if not (c[0] == k and c[1] == 'impl')]
             for j, l in enumerate(lines):
@@ -302,13 +303,12 @@ def _retry_one(argv, index, timeout):
     return line
 
 
-def run_supervised(argv, ncases, per_case_timeout):
+def run_supervised(argv, ncases, per_case_timeout, confirm_budget=None):
     """Runs a harness that prints one flushed line per case; a case that makes no progress for
     per_case_timeout seconds (or kills the process) is recorded as '(DIVERGED)' / '(CRASHED rc)'
     and the run resumes after it with --from. Returns the list of lines."""
     import select
     lines = []
-    stalls = 0
     while len(lines) < ncases:
         p = subprocess.Popen(argv + ['--from', str(len(lines))], stdout=subprocess.PIPE, stderr=subprocess.DEVNULL,
                              env=ENV, preexec_fn=_limits)
@@ -331,11 +331,12 @@ def run_supervised(argv, ncases, per_case_timeout):
             p.kill(); p.wait()
             # confirm before recording a divergence: the same case once more, alone, with five times the limit (a loaded
             # machine can stall a process for seconds; a genuine non-termination stalls for ever)
-            # (only the first two stalls of a shard are confirmed: after two genuine divergences the rest are taken as such)
+            # (only the first two stalls of a run are confirmed: after two genuine divergences the rest are taken as such)
             confirmed = None
-            if stalls < 2:
+            if confirm_budget is None or confirm_budget[0] > 0:
                 confirmed = _retry_one(argv, len(lines), 5 * per_case_timeout)
-            stalls += 1
+                if confirm_budget is not None and confirmed is None:
+                    confirm_budget[0] -= 1
             lines.append(confirmed or '(DIVERGED)')
         else:
             p.wait()
